@@ -108,7 +108,7 @@ func backendsFromEnv() []string {
 	if v := os.Getenv("C14_BACKENDS"); v != "" {
 		return strings.Split(v, ",")
 	}
-	return []string{beHashmap, beBbolt, beInjected, beRegistry, beConfig}
+	return []string{beHashmap, beBbolt, beInjected, beInjectedRO, beRegistry, beConfig}
 }
 
 // concBackendsFromEnv: the concurrent part writes and deletes through
@@ -189,7 +189,7 @@ type tableCfg struct {
 	shadow  bool
 }
 
-var tableCfgs = []tableCfg{{beHashmap, false}, {beHashmap, true}, {beBbolt, false}, {beBbolt, true}, {beInjected, false}, {beRegistry, false}}
+var tableCfgs = []tableCfg{{beHashmap, false}, {beHashmap, true}, {beBbolt, false}, {beBbolt, true}, {beInjected, false}, {beInjectedRO, false}, {beRegistry, false}}
 
 // subTableCfgs: the subscription table also runs on the config module's own database.
 var subTableCfgs = append(append([]tableCfg{}, tableCfgs...), tableCfg{beConfig, false})
